@@ -36,177 +36,184 @@ def run(ctx: Context) -> None:
     ds = td.params[0]
 
     # ---- R14.1
-    pol = m.stmt(f"$polygons = {ds}.ems.polygons")
-    ctx.check('R14.1', pol is not None, "the cells are dataset.ems.polygons (index = linear index)", td, pol or td.node,
-              construct='polygons = dataset.ems.polygons')
-    pl = m.stmt('$length = shapely.get_num_coordinates($polygons)')
-    ctx.check('R14.1', pl is not None, "the per-cell length is the coordinate count of every cell (0 for cells without geometry)", td, pl or td.node,
-              construct='length = shapely.get_num_coordinates(polygons)')
-    ok = m.has('$hulls = shapely.convex_hull($polygons)', '$hull_length = shapely.get_num_coordinates($hulls)')
-    conc = m.stmt('$concave = numpy.flatnonzero($hull_length != $length)') or m.stmt('$concave = numpy.flatnonzero($length != $hull_length)')
-    ctx.check('R14.1', ok and conc is not None, "a cell is concave (or has collinear vertices) iff its convex hull has a different vertex count", td,
-              conc or td.node, construct='concave = flatnonzero(num_coordinates(convex_hull(polygons)) != length)')
-    zero = m.stmt('$length[$concave] = 0')
-    ctx.check('R14.1', zero is not None, "exactly those cells are removed from the fan path (their length is set to 0)", td, zero or td.node,
-              construct='length[concave] = 0')
-    ear = m.stmt('for $ear_i in $concave:\n    ...')
-    ok = ear is not None and conc is not None and zero is not None and _line(conc) < _line(zero) and _line(zero) < _line(ear)
-    ctx.check('R14.1', ok, "and exactly those cells are iterated by the ear clipping path (same index array)", td, ear or td.node,
-              construct='for i in concave: ...')
-    ul = m.stmt('$unique = numpy.unique($length)')
-    bulk = m.stmt('for $ul in $unique:\n    ...')
-    ok = ul is not None and bulk is not None and zero is not None and _line(ul) > _line(zero)
-    ctx.check('R14.1', ok, "the fan path visits every remaining distinct length once (computed after the concave cells were removed)", td, ul or td.node,
-              construct='unique = numpy.unique(length)  # after zeroing')
-    skip = m.stmt('if $ul == 0:\n    continue', within=bulk) if bulk is not None else None
-    ctx.check('R14.1', skip is not None and bulk.body and bulk.body[0] is skip, "length 0 (no geometry, or handled by ear clipping) is skipped", td, skip or bulk or td.node,
-              construct='if unique_length == 0: continue')
-    sel = m.stmt('$batch = numpy.flatnonzero($length == $ul)', within=bulk) if bulk is not None else None
-    ctx.check('R14.1', sel is not None, "a batch is all cells of exactly that length", td, sel or bulk or td.node,
-              construct='batch = numpy.flatnonzero(length == unique_length)')
+    with ctx.section('R14.1'):
+        pol = m.stmt(f"$polygons = {ds}.ems.polygons")
+        ctx.check('R14.1', pol is not None, "the cells are dataset.ems.polygons (index = linear index)", td, pol or td.node,
+                  construct='polygons = dataset.ems.polygons')
+        pl = m.stmt('$length = shapely.get_num_coordinates($polygons)')
+        ctx.check('R14.1', pl is not None, "the per-cell length is the coordinate count of every cell (0 for cells without geometry)", td, pl or td.node,
+                  construct='length = shapely.get_num_coordinates(polygons)')
+        ok = m.has('$hulls = shapely.convex_hull($polygons)', '$hull_length = shapely.get_num_coordinates($hulls)')
+        conc = m.stmt('$concave = numpy.flatnonzero($hull_length != $length)') or m.stmt('$concave = numpy.flatnonzero($length != $hull_length)')
+        ctx.check('R14.1', ok and conc is not None, "a cell is concave (or has collinear vertices) iff its convex hull has a different vertex count", td,
+                  conc or td.node, construct='concave = flatnonzero(num_coordinates(convex_hull(polygons)) != length)')
+        zero = m.stmt('$length[$concave] = 0')
+        ctx.check('R14.1', zero is not None, "exactly those cells are removed from the fan path (their length is set to 0)", td, zero or td.node,
+                  construct='length[concave] = 0')
+        ear = m.stmt('for $ear_i in $concave:\n    ...')
+        ok = ear is not None and conc is not None and zero is not None and _line(conc) < _line(zero) and _line(zero) < _line(ear)
+        ctx.check('R14.1', ok, "and exactly those cells are iterated by the ear clipping path (same index array)", td, ear or td.node,
+                  construct='for i in concave: ...')
+        ul = m.stmt('$unique = numpy.unique($length)')
+        bulk = m.stmt('for $ul in $unique:\n    ...')
+        ok = ul is not None and bulk is not None and zero is not None and _line(ul) > _line(zero)
+        ctx.check('R14.1', ok, "the fan path visits every remaining distinct length once (computed after the concave cells were removed)", td, ul or td.node,
+                  construct='unique = numpy.unique(length)  # after zeroing')
+        skip = m.stmt('if $ul == 0:\n    continue', within=bulk) if bulk is not None else None
+        ctx.check('R14.1', skip is not None and bulk.body and bulk.body[0] is skip, "length 0 (no geometry, or handled by ear clipping) is skipped", td, skip or bulk or td.node,
+                  construct='if unique_length == 0: continue')
+        sel = m.stmt('$batch = numpy.flatnonzero($length == $ul)', within=bulk) if bulk is not None else None
+        ctx.check('R14.1', sel is not None, "a batch is all cells of exactly that length", td, sel or bulk or td.node,
+                  construct='batch = numpy.flatnonzero(length == unique_length)')
 
     # ---- R14.3
-    if bulk is not None:
-        ok = m.has('$batch_polygons = $polygons[$batch]', '$fan = _triangulate_polygons_by_length($batch_polygons)', within=bulk)
-        ctx.check('R14.3', ok, "the batch's polygons are gathered with the batch's own index array and fanned together", td, bulk,
-                  construct='fan = _triangulate_polygons_by_length(polygons[batch])')
-        lab = m.stmt('for $fi, $tri in zip($batch, $fan):\n    _add_triangles(int($fi), $tri)', within=bulk)
-        ctx.check('R14.3', lab is not None, "triangles are labelled by zipping that same index array with the fan result", td, lab or bulk,
-                  construct='for face_index, triangles in zip(batch, fan): _add_triangles(int(face_index), triangles)')
-    else:
-        ctx.check('R14.3', False, "the fan path exists", td, td.node, construct='bulk loop not found')
-    if ear is not None:
-        m2 = Matcher(ctx, td, m.bind)
-        ok = m2.ordered('$poly = $polygons[$ear_i]', '$ear_tris = _triangulate_concave_polygon($poly)', '_add_triangles(int($ear_i), $ear_tris)', within=ear)
-        ctx.check('R14.3', ok, "the ear path triangulates polygons[i] and labels the result with that same i", td, ear,
-                  construct='polygon = polygons[i]; triangles = _triangulate_concave_polygon(polygon); _add_triangles(int(i), triangles)')
-    add = p.functions.get(f"{td.qualname}.<locals>._add_triangles")
-    ctx.need('R14.4', add is not None, "triangulate_dataset writes triangles through one helper", td)
-    ma = Matcher(ctx, add)
-    fi_p, tri_p = add.params[0], add.params[1]
-    ok = ma.ordered(f"$n = len({tri_p})", f"$labels[$cursor:$cursor + $n] = {fi_p}", f"$coords[$cursor:$cursor + $n] = {tri_p}", '$cursor += $n')
-    ctx.check('R14.3', ok, "labels and coordinates of a batch are written to the same rows, then the cursor advances by the batch size", add, add.node,
-              construct='labels[c:c+n] = face_index; coords[c:c+n] = triangles; c += n')
-    labels, coords, cursor = ma.name('labels'), ma.name('coords'), ma.name('cursor')
+    with ctx.section('R14.3'):
+        if bulk is not None:
+            ok = m.has('$batch_polygons = $polygons[$batch]', '$fan = _triangulate_polygons_by_length($batch_polygons)', within=bulk)
+            ctx.check('R14.3', ok, "the batch's polygons are gathered with the batch's own index array and fanned together", td, bulk,
+                      construct='fan = _triangulate_polygons_by_length(polygons[batch])')
+            lab = m.stmt('for $fi, $tri in zip($batch, $fan):\n    _add_triangles(int($fi), $tri)', within=bulk)
+            ctx.check('R14.3', lab is not None, "triangles are labelled by zipping that same index array with the fan result", td, lab or bulk,
+                      construct='for face_index, triangles in zip(batch, fan): _add_triangles(int(face_index), triangles)')
+        else:
+            ctx.check('R14.3', False, "the fan path exists", td, td.node, construct='bulk loop not found')
+        if ear is not None:
+            m2 = Matcher(ctx, td, m.bind)
+            ok = m2.ordered('$poly = $polygons[$ear_i]', '$ear_tris = _triangulate_concave_polygon($poly)', '_add_triangles(int($ear_i), $ear_tris)', within=ear)
+            ctx.check('R14.3', ok, "the ear path triangulates polygons[i] and labels the result with that same i", td, ear,
+                      construct='polygon = polygons[i]; triangles = _triangulate_concave_polygon(polygon); _add_triangles(int(i), triangles)')
+        add = p.functions.get(f"{td.qualname}.<locals>._add_triangles")
+        ctx.need('R14.4', add is not None, "triangulate_dataset writes triangles through one helper", td)
+        ma = Matcher(ctx, add)
+        fi_p, tri_p = add.params[0], add.params[1]
+        ok = ma.ordered(f"$n = len({tri_p})", f"$labels[$cursor:$cursor + $n] = {fi_p}", f"$coords[$cursor:$cursor + $n] = {tri_p}", '$cursor += $n')
+        ctx.check('R14.3', ok, "labels and coordinates of a batch are written to the same rows, then the cursor advances by the batch size", add, add.node,
+                  construct='labels[c:c+n] = face_index; coords[c:c+n] = triangles; c += n')
+        labels, coords, cursor = ma.name('labels'), ma.name('coords'), ma.name('cursor')
 
     # ---- R14.4
-    m.bind.update({k: v for k, v in (('labels', labels), ('coords', coords), ('cursor', cursor)) if v and v not in m.bind.values()})
-    tt = m.stmt('$total = numpy.sum($length[numpy.nonzero($length)] - 3)')
-    ok = tt is not None and zero is not None and _line(tt) < _line(zero)
-    ctx.check('R14.4', ok, "total = sum over cells with geometry of (coordinate count - 3) = n - 2 triangles per n-gon, counted before concave cells are zeroed", td,
-              tt or td.node, construct='total = numpy.sum(length[numpy.nonzero(length)] - 3)')
-    ok = m.has('$labels = numpy.empty($total, dtype=int)', '$coords = numpy.empty(($total, 3, 2), dtype=float)')
-    ctx.check('R14.4', ok, "labels and (triangle, vertex, xy) coordinates are preallocated for that total", td, tt or td.node,
-              construct='labels = numpy.empty(total, int); coords = numpy.empty((total, 3, 2), float)')
-    cur = m.stmt('$cursor = 0')
-    ctx.check('R14.4', cur is not None, "the write cursor starts at 0", td, cur or td.node, construct='cursor = 0')
-    asr = m.stmt('assert $cursor == $total') or m.stmt('assert $total == $cursor')
-    loops_end = max([_line(x) for x in (ear, bulk) if x is not None] + [0])
-    ok = asr is not None and _line(asr) > loops_end
-    ctx.check('R14.4', ok, "after both paths the cursor is asserted to equal the preallocated total", td, asr or td.node, construct='assert cursor == total')
+    with ctx.section('R14.4'):
+        m.bind.update({k: v for k, v in (('labels', labels), ('coords', coords), ('cursor', cursor)) if v and v not in m.bind.values()})
+        tt = m.stmt('$total = numpy.sum($length[numpy.nonzero($length)] - 3)')
+        ok = tt is not None and zero is not None and _line(tt) < _line(zero)
+        ctx.check('R14.4', ok, "total = sum over cells with geometry of (coordinate count - 3) = n - 2 triangles per n-gon, counted before concave cells are zeroed", td,
+                  tt or td.node, construct='total = numpy.sum(length[numpy.nonzero(length)] - 3)')
+        ok = m.has('$labels = numpy.empty($total, dtype=int)', '$coords = numpy.empty(($total, 3, 2), dtype=float)')
+        ctx.check('R14.4', ok, "labels and (triangle, vertex, xy) coordinates are preallocated for that total", td, tt or td.node,
+                  construct='labels = numpy.empty(total, int); coords = numpy.empty((total, 3, 2), float)')
+        cur = m.stmt('$cursor = 0')
+        ctx.check('R14.4', cur is not None, "the write cursor starts at 0", td, cur or td.node, construct='cursor = 0')
+        asr = m.stmt('assert $cursor == $total') or m.stmt('assert $total == $cursor')
+        loops_end = max([_line(x) for x in (ear, bulk) if x is not None] + [0])
+        ok = asr is not None and _line(asr) > loops_end
+        ctx.check('R14.4', ok, "after both paths the cursor is asserted to equal the preallocated total", td, asr or td.node, construct='assert cursor == total')
 
     # ---- R14.5
-    df = [c for c in calls_in(td) if (callee(ctx, td, c) or '').endswith('pandas.DataFrame')]
-    cols = {}
-    if len(df) == 1 and df[0].args and isinstance(df[0].args[0], ast.Dict):
-        for k, v in zip(df[0].args[0].keys, df[0].args[0].values):
-            inner = v.args[0] if isinstance(v, ast.Call) and v.args and (callee(ctx, td, v) or '').endswith('Series') else v
-            cols[const_value(k, None)] = inner
-    lab_col = [k for k, v in cols.items() if isinstance(v, ast.Name) and v.id == labels]
-    okc = len(lab_col) == 1
-    vertex_cols = {}
-    for k, v in cols.items():
-        if k in lab_col:
-            continue
-        if isinstance(v, ast.Subscript) and isinstance(v.value, ast.Name) and v.value.id == coords and isinstance(v.slice, ast.Tuple) and len(v.slice.elts) == 3 \
-                and isinstance(v.slice.elts[0], ast.Slice):
-            vertex_cols[k] = (const_value(v.slice.elts[1], None), const_value(v.slice.elts[2], None))
-        else:
-            okc = False
-    want = {}
-    for k in range(3):
-        want[f"x{k}"] = (k, 0)
-        want[f"y{k}"] = (k, 1)
-    ctx.check('R14.5', okc and vertex_cols == want, "x<k> / y<k> are coordinate 0 / 1 of triangle vertex k", td, df[0] if df else td.node,
-              construct=f"frame columns {{name: (vertex, xy)}} = {vertex_cols}")
-    vi = m.stmt('$all_coords = shapely.get_coordinates($polygons)')
-    vx = m.stmt('$vindex = pandas.MultiIndex.from_arrays($all_coords.T).drop_duplicates()')
-    ctx.check('R14.5', vi is not None and vx is not None, "the vertex table is every polygon coordinate, de-duplicated (x, y) pairs", td, vx or td.node,
-              construct='vertex_index = MultiIndex.from_arrays(get_coordinates(polygons).T).drop_duplicates()')
-    ok = m.has('$vseries = pandas.Series(numpy.arange(len($vindex)), index=$vindex)', '$vcoords = numpy.array($vindex.to_list())')
-    ctx.check('R14.5', ok, "vertex k of the returned list is entry k of that table, and the join maps coordinates to those positions", td, vx or td.node,
-              construct='vertex_series = Series(arange(len(vertex_index)), index=vertex_index); vertex_coords = array(vertex_index.to_list())')
-    vs = m.name('vseries')
-    got = {}
-    for c in calls_in(td):
-        if isinstance(c.func, ast.Attribute) and c.func.attr == 'join' and c.args:
-            a = c.args[0]
-            on = kwarg(c, 'on')
-            if isinstance(a, ast.Call) and isinstance(a.func, ast.Attribute) and a.func.attr == 'rename' and isinstance(a.func.value, ast.Name) and a.func.value.id == vs:
-                got[const_value(a.args[0], None)] = [const_value(e, None) for e in on.elts] if isinstance(on, (ast.List, ast.Tuple)) else None
-    ctx.check('R14.5', got == {f"v{k}": [f"x{k}", f"y{k}"] for k in range(3)}, "v<k> is the vertex index joined on exactly [x<k>, y<k>]", td, td.node,
-              construct=f"joins {got}")
-    tr = m.stmt("$triangles = $joined[['v0', 'v1', 'v2']].to_numpy()")
-    fa = m.stmt(f"$faces = $joined['{lab_col[0] if lab_col else 'face_indices'}'].to_numpy()")
-    ctx.check('R14.5', tr is not None, "the triangles returned are (v0, v1, v2) in that order", td, tr or td.node, construct="triangles = joined[['v0','v1','v2']].to_numpy()")
-    ok = fa is not None and all(Matcher(ctx, td, m.bind).match('($vcoords, $triangles, $faces)', r.value) for r in td.returns()) and td.returns()
-    ctx.check('R14.4', bool(ok), "the labels returned are the ones written, with the vertex list and the triangles", td, fa or td.node,
-              construct='return (vertex_coords, triangles, faces)')
-    ctx.check('R14.5', vx is not None and m.name('vcoords') is not None and vs is not None, "one table serves both the vertex list and the index lookup", td, td.node,
-              construct='vertex_index -> vertex_coords, vertex_series')
+    with ctx.section('R14.5'):
+        df = [c for c in calls_in(td) if (callee(ctx, td, c) or '').endswith('pandas.DataFrame')]
+        cols = {}
+        if len(df) == 1 and df[0].args and isinstance(df[0].args[0], ast.Dict):
+            for k, v in zip(df[0].args[0].keys, df[0].args[0].values):
+                inner = v.args[0] if isinstance(v, ast.Call) and v.args and (callee(ctx, td, v) or '').endswith('Series') else v
+                cols[const_value(k, None)] = inner
+        lab_col = [k for k, v in cols.items() if isinstance(v, ast.Name) and v.id == labels]
+        okc = len(lab_col) == 1
+        vertex_cols = {}
+        for k, v in cols.items():
+            if k in lab_col:
+                continue
+            if isinstance(v, ast.Subscript) and isinstance(v.value, ast.Name) and v.value.id == coords and isinstance(v.slice, ast.Tuple) and len(v.slice.elts) == 3 \
+                    and isinstance(v.slice.elts[0], ast.Slice):
+                vertex_cols[k] = (const_value(v.slice.elts[1], None), const_value(v.slice.elts[2], None))
+            else:
+                okc = False
+        want = {}
+        for k in range(3):
+            want[f"x{k}"] = (k, 0)
+            want[f"y{k}"] = (k, 1)
+        ctx.check('R14.5', okc and vertex_cols == want, "x<k> / y<k> are coordinate 0 / 1 of triangle vertex k", td, df[0] if df else td.node,
+                  construct=f"frame columns {{name: (vertex, xy)}} = {vertex_cols}")
+        vi = m.stmt('$all_coords = shapely.get_coordinates($polygons)')
+        vx = m.stmt('$vindex = pandas.MultiIndex.from_arrays($all_coords.T).drop_duplicates()')
+        ctx.check('R14.5', vi is not None and vx is not None, "the vertex table is every polygon coordinate, de-duplicated (x, y) pairs", td, vx or td.node,
+                  construct='vertex_index = MultiIndex.from_arrays(get_coordinates(polygons).T).drop_duplicates()')
+        ok = m.has('$vseries = pandas.Series(numpy.arange(len($vindex)), index=$vindex)', '$vcoords = numpy.array($vindex.to_list())')
+        ctx.check('R14.5', ok, "vertex k of the returned list is entry k of that table, and the join maps coordinates to those positions", td, vx or td.node,
+                  construct='vertex_series = Series(arange(len(vertex_index)), index=vertex_index); vertex_coords = array(vertex_index.to_list())')
+        vs = m.name('vseries')
+        got = {}
+        for c in calls_in(td):
+            if isinstance(c.func, ast.Attribute) and c.func.attr == 'join' and c.args:
+                a = c.args[0]
+                on = kwarg(c, 'on')
+                if isinstance(a, ast.Call) and isinstance(a.func, ast.Attribute) and a.func.attr == 'rename' and isinstance(a.func.value, ast.Name) and a.func.value.id == vs:
+                    got[const_value(a.args[0], None)] = [const_value(e, None) for e in on.elts] if isinstance(on, (ast.List, ast.Tuple)) else None
+        ctx.check('R14.5', got == {f"v{k}": [f"x{k}", f"y{k}"] for k in range(3)}, "v<k> is the vertex index joined on exactly [x<k>, y<k>]", td, td.node,
+                  construct=f"joins {got}")
+        tr = m.stmt("$triangles = $joined[['v0', 'v1', 'v2']].to_numpy()")
+        fa = m.stmt(f"$faces = $joined['{lab_col[0] if lab_col else 'face_indices'}'].to_numpy()")
+        ctx.check('R14.5', tr is not None, "the triangles returned are (v0, v1, v2) in that order", td, tr or td.node, construct="triangles = joined[['v0','v1','v2']].to_numpy()")
+        ok = fa is not None and all(Matcher(ctx, td, m.bind).match('($vcoords, $triangles, $faces)', r.value) for r in td.returns()) and td.returns()
+        ctx.check('R14.4', bool(ok), "the labels returned are the ones written, with the vertex list and the triangles", td, fa or td.node,
+                  construct='return (vertex_coords, triangles, faces)')
+        ctx.check('R14.5', vx is not None and m.name('vcoords') is not None and vs is not None, "one table serves both the vertex list and the index lookup", td, td.node,
+                  construct='vertex_index -> vertex_coords, vertex_series')
 
     # ---- R14.2
-    tb = ctx.func(f"{TRI}._triangulate_polygons_by_length")
-    mb = Matcher(ctx, tb)
-    bflow = ctx.flow(tb)
-    pp = tb.params[0]
-    vcn = mb.stmt(f"$n = len({pp}[0].exterior.coords) - 1")
-    ctx.check('R14.2', vcn is not None, "n = ring length minus the repeated closing point", tb, vcn or tb.node, construct='n = len(polygons[0].exterior.coords) - 1')
-    c1 = mb.stmt(f"$c = shapely.get_coordinates(shapely.get_exterior_ring({pp}))")
-    c2 = mb.stmt(f"$c = $c.reshape((len({pp}), $n + 1, 2))")
-    c3 = mb.stmt('$c = $c[:, :-1, :]') or mb.stmt('$c = $c[:, :-1]')
-    ok = all(x is not None for x in (c1, c2, c3)) and _line(c1) < _line(c2) < _line(c3)
-    ctx.check('R14.2', ok, "coordinates are (polygon, vertex, xy) with the closing point dropped", tb, c1 or tb.node,
-              construct='c = get_coordinates(rings); c = c.reshape((len(polygons), n + 1, 2)); c = c[:, :-1, :]')
-    v1 = mb.stmt('$v1 = $c[:, 1:-1]') or mb.stmt('$v1 = $c[:, 1:-1, :]')
-    v2 = mb.stmt('$v2 = $c[:, 2:]') or mb.stmt('$v2 = $c[:, 2:, :]')
-    ok = v1 is not None and v2 is not None and c3 is not None and _line(v1) > _line(c3) and _line(v2) > _line(c3)
-    ctx.check('R14.2', ok, "v1 = vertices [1, n-1) and v2 = vertices [2, n): equal length n-2, shifted by one", tb, v1 or tb.node,
-              construct='v1 = c[:, 1:-1]; v2 = c[:, 2:]')
-    v0 = mb.stmt('$v0 = numpy.repeat($c[:, 0, :].reshape((-1, 1, 2)), repeats=$$reps, axis=1)')
-    ok0 = False
-    if v0 is not None:
-        reps = linear(bflow, mb.enodes.get('reps'), {mb.name('n'): symbol('n')})
-        ok0 = reps == symbol('n') - const(2)
-    ctx.check('R14.2', ok0, "v0 = vertex 0 repeated n-2 times along the triangle axis", tb, v0 or tb.node, construct='v0 = numpy.repeat(c[:, 0, :].reshape((-1, 1, 2)), repeats=n - 2, axis=1)')
-    st = mb.stmt('$out = numpy.stack([$v0, $v1, $v2], axis=2)')
-    ok = st is not None and all(isinstance(r.value, ast.Name) and r.value.id == mb.name('out') for r in tb.returns()) and tb.returns()
-    ctx.check('R14.2', bool(ok), "triangle k of a polygon is (v0, v1[k], v2[k]) stacked on the vertex axis", tb, st or tb.node,
-              construct='return numpy.stack([v0, v1, v2], axis=2)')
+    with ctx.section('R14.2'):
+        tb = ctx.func(f"{TRI}._triangulate_polygons_by_length")
+        mb = Matcher(ctx, tb)
+        bflow = ctx.flow(tb)
+        pp = tb.params[0]
+        vcn = mb.stmt(f"$n = len({pp}[0].exterior.coords) - 1")
+        ctx.check('R14.2', vcn is not None, "n = ring length minus the repeated closing point", tb, vcn or tb.node, construct='n = len(polygons[0].exterior.coords) - 1')
+        c1 = mb.stmt(f"$c = shapely.get_coordinates(shapely.get_exterior_ring({pp}))")
+        c2 = mb.stmt(f"$c = $c.reshape((len({pp}), $n + 1, 2))")
+        c3 = mb.stmt('$c = $c[:, :-1, :]') or mb.stmt('$c = $c[:, :-1]')
+        ok = all(x is not None for x in (c1, c2, c3)) and _line(c1) < _line(c2) < _line(c3)
+        ctx.check('R14.2', ok, "coordinates are (polygon, vertex, xy) with the closing point dropped", tb, c1 or tb.node,
+                  construct='c = get_coordinates(rings); c = c.reshape((len(polygons), n + 1, 2)); c = c[:, :-1, :]')
+        v1 = mb.stmt('$v1 = $c[:, 1:-1]') or mb.stmt('$v1 = $c[:, 1:-1, :]')
+        v2 = mb.stmt('$v2 = $c[:, 2:]') or mb.stmt('$v2 = $c[:, 2:, :]')
+        ok = v1 is not None and v2 is not None and c3 is not None and _line(v1) > _line(c3) and _line(v2) > _line(c3)
+        ctx.check('R14.2', ok, "v1 = vertices [1, n-1) and v2 = vertices [2, n): equal length n-2, shifted by one", tb, v1 or tb.node,
+                  construct='v1 = c[:, 1:-1]; v2 = c[:, 2:]')
+        v0 = mb.stmt('$v0 = numpy.repeat($c[:, 0, :].reshape((-1, 1, 2)), repeats=$$reps, axis=1)')
+        ok0 = False
+        if v0 is not None:
+            reps = linear(bflow, mb.enodes.get('reps'), {mb.name('n'): symbol('n')})
+            ok0 = reps == symbol('n') - const(2)
+        ctx.check('R14.2', ok0, "v0 = vertex 0 repeated n-2 times along the triangle axis", tb, v0 or tb.node, construct='v0 = numpy.repeat(c[:, 0, :].reshape((-1, 1, 2)), repeats=n - 2, axis=1)')
+        st = mb.stmt('$out = numpy.stack([$v0, $v1, $v2], axis=2)')
+        ok = st is not None and all(isinstance(r.value, ast.Name) and r.value.id == mb.name('out') for r in tb.returns()) and tb.returns()
+        ctx.check('R14.2', bool(ok), "triangle k of a polygon is (v0, v1[k], v2[k]) stacked on the vertex axis", tb, st or tb.node,
+                  construct='return numpy.stack([v0, v1, v2], axis=2)')
 
     # ---- R14.6
-    tcp = ctx.func(f"{TRI}._triangulate_concave_polygon")
-    mc = Matcher(ctx, tcp)
-    poly = tcp.params[0]
-    cnt = mc.stmt(f"$count = len({poly}.exterior.coords) - 3")
-    ctx.check('R14.6', cnt is not None, "an n-gon (n+1 ring coordinates) yields n-2 triangles", tcp, cnt or tcp.node, construct='count = len(polygon.exterior.coords) - 3')
-    wl = mc.stmt(f"while len({poly}.exterior.coords) > 4:\n    ...")
-    ctx.check('R14.6', wl is not None, "ears are clipped until a triangle remains", tcp, wl or tcp.node, construct='while len(polygon.exterior.coords) > 4: ...')
-    ok = wl is not None and mc.has(f"$ring = {poly}.exterior", '$coords = $ring.coords[:-1]', within=wl)
-    inner = mc.stmt('for $i in range(len($coords) - 2):\n    ...\nelse:\n    ...', within=wl) if ok else None
-    ok = inner is not None and mc.has('$verts = [$coords[$i], $coords[$i + 2]]', '$diag = LineString($verts)', '$ends = MultiPoint($verts)', within=inner)
-    test = mc.stmt(f"if $diag.covered_by({poly}) and $ring.intersection($diag).equals($ends):\n    ...", within=inner) if ok else None
-    ctx.check('R14.6', test is not None, "a diagonal (i, i+2) is an ear only if it lies in the polygon and touches the ring at its end points only", tcp, test or tcp.node,
-              construct='if diagonal.covered_by(polygon) and exterior.intersection(diagonal).equals(multipoint)')
-    ok = test is not None and mc.ordered('$tris[$k] = $coords[$i:$i + 3]', '$k += 1', f"{poly} = Polygon($coords[:$i + 1] + $coords[$i + 2:])", 'break', within=test)
-    ctx.check('R14.6', ok, "the ear (i, i+1, i+2) is recorded and vertex i+1 removed", tcp, test or tcp.node,
-              construct='triangles[k] = coords[i:i+3]; k += 1; polygon = Polygon(coords[:i+1] + coords[i+2:]); break')
-    ok = (inner is not None and any(isinstance(s, ast.Raise) for s in inner.orelse)
-          and mc.stmt(f"$tris[$k] = {poly}.exterior.coords[:-1]") is not None
-          and (mc.stmt('assert $k + 1 == $count') is not None or mc.stmt('assert $count == $k + 1') is not None)
-          and all(isinstance(r.value, ast.Name) and r.value.id == mc.name('tris') for r in tcp.returns()))
-    ctx.check('R14.6', ok, "the last triangle is the remaining ring; a polygon with no ear raises; the count is asserted", tcp, tcp.node,
-              construct='for ... else: raise; triangles[k] = polygon.exterior.coords[:-1]; assert k + 1 == count')
+    with ctx.section('R14.6'):
+        tcp = ctx.func(f"{TRI}._triangulate_concave_polygon")
+        mc = Matcher(ctx, tcp)
+        poly = tcp.params[0]
+        cnt = mc.stmt(f"$count = len({poly}.exterior.coords) - 3")
+        ctx.check('R14.6', cnt is not None, "an n-gon (n+1 ring coordinates) yields n-2 triangles", tcp, cnt or tcp.node, construct='count = len(polygon.exterior.coords) - 3')
+        wl = mc.stmt(f"while len({poly}.exterior.coords) > 4:\n    ...")
+        ctx.check('R14.6', wl is not None, "ears are clipped until a triangle remains", tcp, wl or tcp.node, construct='while len(polygon.exterior.coords) > 4: ...')
+        ok = wl is not None and mc.has(f"$ring = {poly}.exterior", '$coords = $ring.coords[:-1]', within=wl)
+        inner = mc.stmt('for $i in range(len($coords) - 2):\n    ...\nelse:\n    ...', within=wl) if ok else None
+        ok = inner is not None and mc.has('$verts = [$coords[$i], $coords[$i + 2]]', '$diag = LineString($verts)', '$ends = MultiPoint($verts)', within=inner)
+        test = mc.stmt(f"if $diag.covered_by({poly}) and $ring.intersection($diag).equals($ends):\n    ...", within=inner) if ok else None
+        ctx.check('R14.6', test is not None, "a diagonal (i, i+2) is an ear only if it lies in the polygon and touches the ring at its end points only", tcp, test or tcp.node,
+                  construct='if diagonal.covered_by(polygon) and exterior.intersection(diagonal).equals(multipoint)')
+        ok = test is not None and mc.ordered('$tris[$k] = $coords[$i:$i + 3]', '$k += 1', f"{poly} = Polygon($coords[:$i + 1] + $coords[$i + 2:])", 'break', within=test)
+        ctx.check('R14.6', ok, "the ear (i, i+1, i+2) is recorded and vertex i+1 removed", tcp, test or tcp.node,
+                  construct='triangles[k] = coords[i:i+3]; k += 1; polygon = Polygon(coords[:i+1] + coords[i+2:]); break')
+        ok = (inner is not None and any(isinstance(s, ast.Raise) for s in inner.orelse)
+              and mc.stmt(f"$tris[$k] = {poly}.exterior.coords[:-1]") is not None
+              and (mc.stmt('assert $k + 1 == $count') is not None or mc.stmt('assert $count == $k + 1') is not None)
+              and all(isinstance(r.value, ast.Name) and r.value.id == mc.name('tris') for r in tcp.returns()))
+        ctx.check('R14.6', ok, "the last triangle is the remaining ring; a polygon with no ear raises; the count is asserted", tcp, tcp.node,
+                  construct='for ... else: raise; triangles[k] = polygon.exterior.coords[:-1]; assert k + 1 == count')
+
 
 
 # --------------------------------------------------------------------------- checker self-test
